@@ -784,7 +784,47 @@ def sink_joined_temps(fn, ref_names, params, stats, key):
     return done
 
 
+def coalesce_copies(fn, ref_names, params):
+    """`T = E` ... `X = T` with the NEW name T dead afterwards and X untouched in between: T was X all along (inlined helper result)"""
+    done = 0
+    for n in list(ast.walk(fn)):
+        for f in ('body', 'orelse', 'finalbody'):
+            block = getattr(n, f, None)
+            if not isinstance(block, list):
+                continue
+            for j, s in enumerate(block):
+                if not (isinstance(s, ast.Assign) and len(s.targets) == 1 and isinstance(s.targets[0], ast.Name) and isinstance(s.value, ast.Name)):
+                    continue
+                x, t = s.targets[0].id, s.value.id
+                if t.split('\x01')[0] in ref_names or t in params or t == x:
+                    continue
+                defs = [k for k, b in enumerate(block[:j]) if isinstance(b, ast.Assign) and len(b.targets) == 1 and isinstance(b.targets[0], ast.Name) and b.targets[0].id == t]
+                stores = [m for m in ast.walk(fn) if isinstance(m, ast.Name) and m.id == t and isinstance(m.ctx, ast.Store)]
+                if len(defs) != 1 or len(stores) != 1:
+                    continue
+                k = defs[0]
+                inside = set()
+                for b in block[k:j + 1]:
+                    inside |= {id(m) for m in ast.walk(b)}
+                if any(isinstance(m, ast.Name) and m.id == t and id(m) not in inside for m in ast.walk(fn)):
+                    continue        # T used outside the region
+                between = block[k + 1:j]
+                if any(isinstance(m, ast.Name) and m.id == x for b in between for m in ast.walk(b)):
+                    continue        # X read or written in between
+                if any(isinstance(m, (ast.Lambda, ast.FunctionDef)) for b in block[k:j] for m in ast.walk(b)):
+                    continue
+                for b in block[k:j]:
+                    for m in ast.walk(b):
+                        if isinstance(m, ast.Name) and m.id == t:
+                            m.id = x
+                del block[j]
+                done += 1
+                break
+    return done
+
+
 def _inline_new_temps(fn, ref_names, params, stats, key):
+    coalesce_copies(fn, ref_names, params)
     own = fn_scope_locals(fn)
     cand = [n for n in own if n.split('\x01')[0] not in ref_names and n not in params]
     done = 0
@@ -1269,7 +1309,7 @@ def inline_new_helpers(trees, ref, stats=None, rounds=3):
 
 def _inline_in(fn, lookup, key, stats):
     changed = [False]
-    caller_locals = set(local_names(fn))
+    caller_locals = fn_scope_locals(fn) | {n.id for n in ast.walk(fn) if isinstance(n, ast.Name) and n.id in fn_scope_locals(fn)}
 
     def note(h):
         changed[0] = True
